@@ -8,7 +8,8 @@
 #include <stdlib.h>
 #include "C11_alg.h"
 #ifdef C11_OWN_MEMCPY
-/* bounded byte-loop models instead of CBMC's built-in memcpy/memset (symbolic n is expensive there) */
+/* counter-arithmetic queries only (CNT/FLEN modes of the harnesses): data movement is abstracted away there, the
+ * harness supplies c11_memcpy/c11_memset; every other query uses CBMC's built-in memcpy/memset with all checks */
 void *c11_memcpy(void *d, const void *s, size_t n);
 void *c11_memset(void *d, int c, size_t n);
 # define memcpy c11_memcpy
@@ -60,6 +61,7 @@ typedef PHashGOST3411 c11_real;
 #endif
 
 static c11_real c11_the_ctx;
+static c11_real c11_image;     /* holds the pre-state image of the pending-bytes buffer (filled once by the harness) */
 
 void *c11_ctx(void) { return &c11_the_ctx; }
 void c11_update(const unsigned char *d, size_t n) { UPD (&c11_the_ctx, d, n); }
@@ -70,6 +72,9 @@ c11_word *c11_state(void) { return c11_the_ctx.hash; }
 
 #if ALG == ALG_MD5 || ALG == ALG_SHA1 || ALG == ALG_SHA256
 unsigned char *c11_buf(void) { return c11_the_ctx.buf.buf; }
+unsigned char *c11_image_buf(void) { return c11_image.buf.buf; }
+void c11_load_buf(void) { c11_the_ctx.buf = c11_image.buf; }
+unsigned char c11_buf_at(unsigned i) { return c11_the_ctx.buf.buf[i]; }
 void c11_set_count(c11_u256 v) { c11_the_ctx.len_low = (puint32) v.l[0]; c11_the_ctx.len_high = (puint32) (v.l[0] >> 32); }
 c11_u256 c11_get_count(void) { c11_u256 r = {{ (uint64_t) c11_the_ctx.len_low | ((uint64_t) c11_the_ctx.len_high << 32), 0, 0, 0 }}; return r; }
 # if ALG == ALG_SHA256
@@ -79,18 +84,28 @@ void c11_set_variant(void) { }
 # endif
 #elif ALG == ALG_SHA512
 unsigned char *c11_buf(void) { return c11_the_ctx.buf.buf; }
+unsigned char *c11_image_buf(void) { return c11_image.buf.buf; }
+void c11_load_buf(void) { c11_the_ctx.buf = c11_image.buf; }
+unsigned char c11_buf_at(unsigned i) { return c11_the_ctx.buf.buf[i]; }
 void c11_set_count(c11_u256 v) { c11_the_ctx.len_low = v.l[0]; c11_the_ctx.len_high = v.l[1]; }
 c11_u256 c11_get_count(void) { c11_u256 r = {{ c11_the_ctx.len_low, c11_the_ctx.len_high, 0, 0 }}; return r; }
 void c11_set_variant(void) { c11_the_ctx.is384 = VARIANT ? TRUE : FALSE; }
 #elif ALG == ALG_SHA3
 unsigned char *c11_buf(void) { return c11_the_ctx.buf.buf; }
+unsigned char *c11_image_buf(void) { return c11_image.buf.buf; }
+void c11_load_buf(void) { c11_the_ctx.buf = c11_image.buf; }
+unsigned char c11_buf_at(unsigned i) { return c11_the_ctx.buf.buf[i]; }
 void c11_set_count(c11_u256 v) { c11_the_ctx.len = (puint32) v.l[0]; }
 c11_u256 c11_get_count(void) { c11_u256 r = {{ c11_the_ctx.len, 0, 0, 0 }}; return r; }
 void c11_set_variant(void) { c11_the_ctx.block_size = C11_BLOCK; }
 #elif ALG == ALG_GOST
 unsigned char *c11_buf(void) { return (unsigned char *) c11_the_ctx.buf; }
+unsigned char *c11_image_buf(void) { return (unsigned char *) c11_image.buf; }
+void c11_load_buf(void) { int i; for (i = 0; i < 8; i++) c11_the_ctx.buf[i] = c11_image.buf[i]; }
+unsigned char c11_buf_at(unsigned i) { return (unsigned char) (c11_the_ctx.buf[i / 4] >> (8 * (i % 4))); }
 void c11_set_count(c11_u256 v) { int i; for (i = 0; i < 4; i++) { c11_the_ctx.len[2 * i] = (puint32) v.l[i]; c11_the_ctx.len[2 * i + 1] = (puint32) (v.l[i] >> 32); } }
 c11_u256 c11_get_count(void) { c11_u256 r; int i; for (i = 0; i < 4; i++) r.l[i] = (uint64_t) c11_the_ctx.len[2 * i] | ((uint64_t) c11_the_ctx.len[2 * i + 1] << 32); return r; }
 void c11_set_variant(void) { }
 uint32_t *c11_sum(void) { return c11_the_ctx.sum; }
+uint32_t *c11_len(void) { return c11_the_ctx.len; }
 #endif
